@@ -285,6 +285,9 @@ func referenceLine(l []byte, bh *Header) error {
 		}
 	}
 
+	if !nok || !lok {
+		return errBadHeader
+	}
 	if dup {
 		if er := bh.refs[dupID]; equalRefs(er, rf) {
 			return nil
